@@ -674,6 +674,42 @@ pub fn mutate_doc(rng: &mut Rng, doc: &mut String, n: usize) -> String {
                 doc.insert_str(at, &ins);
                 note.push_str(&format!("ins long-named element ({} bytes)@{}; ", n, at));
             }
+            1 if rng.chance(1, 5) => {
+                // give one element name a namespace prefix, on all its start and end tags
+                let tags: Vec<String> = toks
+                    .iter()
+                    .filter(|t| t.2 && doc.as_bytes().get(t.0 + 1).map(|c| c.is_ascii_alphabetic()).unwrap_or(false))
+                    .map(|t| doc[t.0 + 1..t.1].split(|c: char| c.is_whitespace() || c == '>' || c == '/').next().unwrap_or("").to_string())
+                    .filter(|n| !n.is_empty() && !n.contains(':'))
+                    .collect();
+                if !tags.is_empty() {
+                    let n = rng.pick(&tags).clone();
+                    let pfx = *rng.pick(&["ns", "p", "xsi", "x"]);
+                    let decl = if rng.bool() { format!(" xmlns:{}=\"u\"", pfx) } else { String::new() };
+                    let mut out = String::with_capacity(doc.len() + 32);
+                    let mut rest = doc.as_str();
+                    let mut first = true;
+                    while let Some(i) = rest.find('<') {
+                        out.push_str(&rest[..i + 1]);
+                        rest = &rest[i + 1..];
+                        let (slash, body) = if let Some(r) = rest.strip_prefix('/') { ("/", r) } else { ("", rest) };
+                        if body.starts_with(n.as_str()) && body[n.len()..].starts_with(|c: char| c.is_whitespace() || c == '>' || c == '/') {
+                            out.push_str(slash);
+                            out.push_str(pfx);
+                            out.push(':');
+                            out.push_str(&n);
+                            if slash.is_empty() && first {
+                                out.push_str(&decl);
+                                first = false;
+                            }
+                            rest = &body[n.len()..];
+                        }
+                    }
+                    out.push_str(rest);
+                    *doc = out;
+                    note.push_str(&format!("prefix {}:{}; ", pfx, n));
+                }
+            }
             0 | 1 | 2 => {
                 // insert at a token boundary or inside text
                 let at = if toks.is_empty() || rng.chance(1, 4) {
